@@ -337,3 +337,300 @@ func ruleTypeNameGuard(c *Ctx, r *Report) {
 			fmt.Sprintf("%s uses the %s type name %s (…%s) without testing it against the names of the structs generated for schema nodes: a container named %q inside the list gets a struct of the same name and the generated package declares the type twice", st.fn, st.what, nameVar.Name(), st.suffix, st.node))
 	}
 }
+
+// ---- R-UNION-NAME-CLASH (C26, C01) -------------------------------------------------------------
+
+// ruleUnionNameClash: writeGoStruct generates a multi-type union once per name and lets every later
+// field with the same union name share it (a leafref to the same leaf). The name is the CamelCase
+// of the leaf's path, so two different leaves can have it (foo-bar / foo_bar). Sharing is only sound
+// for equal unions: the reuse must compare the member types and record an error when they differ.
+func ruleUnionNameClash(c *Ctx, r *Report) {
+	r.Rule("R-UNION-NAME-CLASH", "when gogen.writeGoStruct meets a union name it has already generated in the struct, it compares the two fields' member types (UnionTypes) and records an error when they differ; without the comparison the second field silently gets the first field's union type, whose members are not those of its YANG type", 1)
+	f := c.MustFunc(r, "gogen", "writeGoStruct")
+	if f == nil {
+		return
+	}
+	info := f.Info()
+	found := false
+	var at token.Pos
+	ast.Inspect(f.Decl.Body, func(n ast.Node) bool {
+		is, ok := n.(*ast.IfStmt)
+		if !ok || found {
+			return !found
+		}
+		// condition: an (in)equality test — reflect.DeepEqual, cmp.Equal or a module helper — one
+		// of whose operands is <field>.LangType.UnionTypes.
+		cmpUnion := false
+		ast.Inspect(is.Cond, func(m ast.Node) bool {
+			call, ok := m.(*ast.CallExpr)
+			if !ok {
+				return true
+			}
+			fn := FullName(Callee(info, call))
+			if fn != "reflect.DeepEqual" && !strings.HasSuffix(fn, "cmp.Equal") && !strings.HasPrefix(fn, modPath) {
+				return true
+			}
+			for _, a := range call.Args {
+				if se, ok := ast.Unparen(a).(*ast.SelectorExpr); ok && se.Sel.Name == "UnionTypes" {
+					cmpUnion = true
+				}
+			}
+			return true
+		})
+		if !cmpUnion {
+			return true
+		}
+		// body: records or returns an error.
+		errRecorded := false
+		ast.Inspect(is.Body, func(m ast.Node) bool {
+			switch x := m.(type) {
+			case *ast.CallExpr:
+				if id, ok := x.Fun.(*ast.Ident); ok && id.Name == "append" && len(x.Args) >= 2 {
+					if tv, ok := info.Types[x.Args[0]]; ok && tv.Type != nil && tv.Type.String() == "[]error" {
+						errRecorded = true
+					}
+				}
+			case *ast.ReturnStmt:
+				for _, res := range x.Results {
+					if tv, ok := info.Types[res]; ok && tv.Type != nil && (tv.Type.String() == "error" || tv.Type.String() == "[]error") && !isNilIdent(info, res) {
+						errRecorded = true
+					}
+				}
+			}
+			return true
+		})
+		if errRecorded {
+			found = true
+			at = is.Pos()
+		}
+		return !found
+	})
+	pos := f.Decl.Pos()
+	if found {
+		pos = at
+	}
+	r.Check(found, "gogen.writeGoStruct:union-name-reuse", c.Pos(pos), "member types compared, difference is an error",
+		"writeGoStruct reuses a union name already generated in the struct without comparing the member types: for sibling leaves whose names share a CamelCase form (foo-bar: union{uint8,string}, foo_bar: union{boolean,int32}) the second field is typed with the first field's union and cannot hold or round-trip its own values")
+}
+
+// ---- R-ENUM-LABEL-UNIQ (C28) -------------------------------------------------------------------
+
+// ruleEnumLabelUniq: the label of a generated enum value is the YANG name with every character
+// outside [A-Za-z0-9_] replaced by '_' (safeProtoIdentifierName), which is not injective
+// (A-B, A_B, A.B). Within one enum the labels must nevertheless be distinct, so each label handed
+// to toProtoEnumValue inside a loop over the enum's values must come out of a uniquifier whose
+// memory spans the loop.
+func ruleEnumLabelUniq(c *Ctx, r *Report) {
+	r.Rule("R-ENUM-LABEL-UNIQ", "every enum value label protogen builds per iteration of a loop over an enum's values (toProtoEnumValue's first argument) is a genutil.MakeNameUnique result over a set declared outside that loop; safeProtoIdentifierName alone maps distinct YANG names (A-B, A_B) to one protobuf identifier and yields an enum with duplicate value names", 2)
+	n := 0
+	for _, f := range c.AllFuncs("protogen") {
+		info := f.Info()
+		for _, call := range CallsIn(info, f.Decl.Body, P("protogen")+".toProtoEnumValue") {
+			loop := c.EnclosingLoop(f, call)
+			if loop == nil || len(call.Args) == 0 {
+				continue
+			}
+			n++
+			why := uniqueNameSource(c, f, call.Args[0], loop, 0)
+			r.Check(why != "", fmt.Sprintf("%s:enum-label#%d", f.Name, n), c.Pos(call.Pos()), why,
+				fmt.Sprintf("%s labels an enum value %s inside a loop over the enum's values without a uniquifier that remembers earlier labels: two YANG names that differ only in characters outside [A-Za-z0-9_] give the enum two values of the same name, which is not valid proto3", f.Name, types.ExprString(call.Args[0])))
+		}
+	}
+}
+
+// ---- R-ENUM-PREFIX-UNIQ and R-KEYMSG-NAME (C28) ------------------------------------------------
+
+// ruleProtoScopeNames: two naming obligations that follow from protobuf's scoping rules.
+//   - the values of all enums embedded in one message share the message's scope, so the prefix
+//     that keeps them apart must be unique among the message's enums: it is a field set from
+//     genutil.MakeNameUnique before the message is rendered, and the message template reads it;
+//   - the key message of a list is a sibling of the messages of the list's package, so its name
+//     is made unique against the names of the directories of that package.
+func ruleProtoScopeNames(c *Ctx, r *Report) {
+	r.Rule("R-PROTO-SCOPE", "names protogen derives with a fixed transformation are kept unique in the protobuf scope they land in: the value prefix of each enum embedded in a message is a MakeNameUnique result over the message's enums, set before the (single) render and read by the message template; the name of a list's key message is a MakeNameUnique result over the names of the IR directories of its package", 4)
+	// (1) every store to protoMsgEnum.ValuePrefix is a uniquifier result with memory across the loop.
+	var setter *FuncInfo
+	n := 0
+	for _, f := range c.AllFuncs("protogen") {
+		info := f.Info()
+		ast.Inspect(f.Decl.Body, func(x ast.Node) bool {
+			as, ok := x.(*ast.AssignStmt)
+			if !ok || len(as.Lhs) != len(as.Rhs) {
+				return true
+			}
+			for i, l := range as.Lhs {
+				se, ok := ast.Unparen(l).(*ast.SelectorExpr)
+				if !ok || se.Sel.Name != "ValuePrefix" {
+					continue
+				}
+				tv, ok := info.Types[se.X]
+				if !ok || tv.Type == nil || !strings.HasSuffix(strings.TrimPrefix(tv.Type.String(), "*"), "protogen.protoMsgEnum") {
+					continue
+				}
+				n++
+				loop := c.EnclosingLoop(f, as)
+				why := ""
+				if loop != nil {
+					why = uniqueNameSource(c, f, as.Rhs[i], loop, 0)
+				}
+				r.Check(why != "", fmt.Sprintf("%s:enum-value-prefix#%d", f.Name, n), c.Pos(as.Pos()), why,
+					f.Name+" sets the value prefix of an embedded enum to "+types.ExprString(as.Rhs[i])+", which is not made unique among the enums of the message: enums whose names differ only in case share a prefix and declare the same value names in one scope")
+				if why != "" {
+					setter = f
+				}
+			}
+			return true
+		})
+	}
+	if n == 0 {
+		r.Bad("protogen:enum-value-prefix", "-", "no function sets protoMsgEnum.ValuePrefix: the prefix of embedded enum values is not computed per message (enums whose names differ only in case would share value names in one scope)")
+	}
+	// (2) the setter runs before the message template is executed, in the same statement list.
+	if setter != nil {
+		done := false
+		for _, f := range c.AllFuncs("protogen") {
+			info := f.Info()
+			pm := c.parentMap(f.File)
+			ast.Inspect(f.Decl.Body, func(x ast.Node) bool {
+				call, ok := x.(*ast.CallExpr)
+				if !ok || done {
+					return !done
+				}
+				se, ok := call.Fun.(*ast.SelectorExpr)
+				if !ok || se.Sel.Name != "Execute" || types.ExprString(se.X) != "protoMessageTemplate" {
+					return true
+				}
+				done = true
+				// enclosing statement list
+				var stmt ast.Node = call
+				for pm[stmt] != nil {
+					if _, isBlock := pm[stmt].(*ast.BlockStmt); isBlock {
+						break
+					}
+					stmt = pm[stmt]
+				}
+				blk, _ := pm[stmt].(*ast.BlockStmt)
+				before := false
+				if blk != nil {
+					for _, s := range blk.List {
+						if ast.Node(s) == stmt {
+							break
+						}
+						if es, ok := s.(*ast.ExprStmt); ok {
+							if cl, ok := es.X.(*ast.CallExpr); ok && Callee(info, cl) != nil && Callee(info, cl).Origin() == setter.Obj.Origin() {
+								before = true
+							}
+						}
+					}
+				}
+				r.Check(before, f.Name+":prefixes-before-render", c.Pos(call.Pos()), "enum value prefixes set unconditionally before the message is rendered",
+					f.Name+" renders a message without first setting the value prefixes of its enums ("+setter.Name+")")
+				return false
+			})
+		}
+		if !done {
+			r.Und("protogen:render-site", "-", "protoMessageTemplate.Execute not found")
+		}
+	}
+	// (3) the message template emits the prefix field: expanded (standard library text/template)
+	// over a message with two enums whose names differ only in case and whose prefixes differ.
+	var mt *tmplSrc
+	for _, t := range c.templatesOf("protogen") {
+		if t.Var == "protoMessageTemplate" {
+			mt = t
+		}
+	}
+	if mt == nil {
+		r.Und("protogen.protoMessageTemplate:enum-value-prefix", "-", "template not found")
+	} else {
+		val := func(l string) map[string]any { return map[string]any{"ProtoLabel": l, "YANGLabel": ""} }
+		data := map[string]any{
+			"Name": "M", "YANGPath": "/m", "PathComment": false,
+			"ChildMsgs": []any{}, "Fields": []any{},
+			"Enums": map[string]any{
+				"EnUm": map[string]any{"ValuePrefix": "PFXA", "Values": map[int64]any{0: val("UNSET"), 1: val("X")}},
+				"ENum": map[string]any{"ValuePrefix": "PFXB", "Values": map[int64]any{0: val("UNSET"), 1: val("X")}},
+			},
+		}
+		out, err := instantiate(mt, data)
+		switch {
+		case err != nil:
+			r.Und("protogen.protoMessageTemplate:enum-value-prefix", c.Pos(mt.Pos), "template does not expand over the analyser's message shape: "+err.Error())
+		default:
+			good := strings.Contains(out, "PFXA_UNSET") && strings.Contains(out, "PFXB_UNSET") && strings.Contains(out, "PFXA_X") && !strings.Contains(out, "ENUM_UNSET")
+			r.Check(good, "protogen.protoMessageTemplate:enum-value-prefix", c.Pos(mt.Pos), "expanded template prefixes each value with its enum's ValuePrefix",
+				"expanded over a message with enums EnUm/ENum (prefixes PFXA/PFXB) the message template does not emit PFXA_UNSET and PFXB_UNSET: the prefix of embedded enum values is not the uniquified ValuePrefix, so enums whose names differ only in case declare the same value names in one scope")
+		}
+	}
+	// (4) key message name.
+	if f := c.MustFunc(r, "protogen", "genListKeyProto"); f != nil {
+		info := f.Info()
+		var nameExpr ast.Expr
+		ast.Inspect(f.Decl.Body, func(x ast.Node) bool {
+			cl, ok := x.(*ast.CompositeLit)
+			if !ok || nameExpr != nil {
+				return nameExpr == nil
+			}
+			tv, ok := info.Types[cl]
+			if !ok || tv.Type == nil || !strings.HasSuffix(tv.Type.String(), "protogen.protoMsg") {
+				return true
+			}
+			for _, el := range cl.Elts {
+				if kv, ok := el.(*ast.KeyValueExpr); ok {
+					if id, ok := kv.Key.(*ast.Ident); ok && id.Name == "Name" {
+						nameExpr = kv.Value
+					}
+				}
+			}
+			return nameExpr == nil
+		})
+		good, why := false, "the key message's Name was not found"
+		if nameExpr != nil {
+			why = "the key message is named " + types.ExprString(nameExpr) + " without a test against the names of the messages of its package"
+			exprs := []ast.Expr{nameExpr}
+			if id, ok := ast.Unparen(nameExpr).(*ast.Ident); ok {
+				exprs = allDefs(f, info.ObjectOf(id))
+			}
+			for _, e := range exprs {
+				call, ok := ast.Unparen(e).(*ast.CallExpr)
+				if !ok || FullName(Callee(info, call)) != P("genutil")+".MakeNameUnique" || len(call.Args) != 2 {
+					continue
+				}
+				set := ObjOf(info, call.Args[1])
+				// the set is filled with <d>.Name in a range over a map of *ygen.ParsedDirectory.
+				ast.Inspect(f.Decl.Body, func(x ast.Node) bool {
+					rs, ok := x.(*ast.RangeStmt)
+					if !ok || rs.Value == nil {
+						return true
+					}
+					tv, ok := info.Types[rs.X]
+					if !ok || tv.Type == nil {
+						return true
+					}
+					m, ok := tv.Type.Underlying().(*types.Map)
+					if !ok || !strings.HasSuffix(m.Elem().String(), "ygen.ParsedDirectory") {
+						return true
+					}
+					d := ObjOf(info, rs.Value)
+					ast.Inspect(rs.Body, func(y ast.Node) bool {
+						as, ok := y.(*ast.AssignStmt)
+						if !ok {
+							return true
+						}
+						for _, l := range as.Lhs {
+							if ix, ok := ast.Unparen(l).(*ast.IndexExpr); ok && ObjOf(info, ix.X) == set {
+								if se, ok := ast.Unparen(ix.Index).(*ast.SelectorExpr); ok && se.Sel.Name == "Name" && ObjOf(info, se.X) == d {
+									good, why = true, "MakeNameUnique against the names of the IR directories"
+								}
+							}
+						}
+						return true
+					})
+					return true
+				})
+			}
+		}
+		r.Check(good, "protogen.genListKeyProto:key-message-name", c.Pos(f.Decl.Pos()), why,
+			"genListKeyProto: "+why+": a sibling container named <list>-key gets a message of the same name and the .proto declares it twice")
+	}
+}
